@@ -416,3 +416,51 @@ Proof.
   intros H. split; [eapply api_slots; eauto|]. cbn in H. destruct (in_call y) eqn:E; try discriminate H. cbv zeta in H.
   match type of H with (if ?b then _ else _) = _ => destruct b end; [|discriminate]. inversion H; subst; clear H. cbn. auto.
 Qed.
+
+(* ---------------------------------------------------------------------------------------------------------------
+   "a device is started only when armed".  The model enables a device start (successful or failing) only in the HAL state
+   Armed; every trace of the runtime being accepted, the runtime never starts a device in another state ... *)
+Theorem start_needs_armed s n ok s' :
+  (step_stream s ACli (DStoStart n ok) = Some s' -> sto s = Some n /\ sto_st s = HArmed) /\
+  (forall tag, step_stream s ACli (DCamStart n ok tag) = Some s' -> cam s = Some n /\ cam_st s = HArmed).
+Proof.
+  split; [|intros tag]; intros H; cbn in H; unfold guard in H;
+    match type of H with (if ?b then _ else _) = _ => destruct b eqn:E end; try discriminate H;
+    repeat (apply andb_true_iff in E; destruct E as [E ?]).
+  - split; [apply optN_eqb_true; assumption|]. destruct (sto_st s); cbn in *; congruence.
+  - split; [apply optN_eqb_true; assumption|]. destruct (cam_st s); cbn in *; congruence.
+Qed.
+
+(* ... and what it does instead, when acquire_start meets a device that is not armed (it failed -- frame call, append, start -- and
+   was not configured since): video_sink_start / video_source_start refuse BEFORE touching the device -- the device slots of the
+   stream are unchanged, the start is marked failed (the error path of acquire_start follows: fail_start, abort) *)
+Theorem unarmed_start_refused s w s' :
+  step_stream s ACli (StartRefused w) = Some s' ->
+  cam_slot s' = cam_slot s /\ sto_slot s' = sto_slot s /\ c_start s' = TFailed /\
+  match w with RSink => sto_st s = HAwait /\ c_start s = TBegin | RSrc => cam_st s = HAwait /\ c_start s = TFiltUp | RFilt => False end.
+Proof.
+  intros H. destruct w; cbn in H; unfold guard in H; try discriminate H;
+    match type of H with (if ?b then _ else _) = _ => destruct b eqn:E end; try discriminate H;
+    inversion H; subst; clear H; repeat (apply andb_true_iff in E; destruct E as [E ?]);
+    unfold cam_slot, sto_slot; cbn; repeat split; auto.
+  - destruct (cam_st s); cbn in *; congruence.
+  - destruct (c_start s); congruence.
+  - destruct (sto_st s); cbn in *; congruence.
+  - destruct (c_start s); congruence.
+Qed.
+
+Lemma start_failure_call y i a e y' : step y (EvS i a e) = Some y' -> is_start_failure e = true -> in_call y' = InStartFail.
+Proof.
+  intros H Hf. cbn in H. destruct (i && _ && _); [discriminate|].
+  destruct (step_stream (if i then st1 y else st0 y) a e); [|discriminate]. rewrite Hf in H. inversion H; reflexivity.
+Qed.
+
+Theorem unarmed_start_refused_sys y i w y' :
+  step y (EvS i ACli (StartRefused w)) = Some y' -> slots y' = slots y /\ in_call y' = InStartFail.
+Proof.
+  intros H. destruct (step_stream_slots _ _ _ _ _ H) as (s' & Hs & A & B & C & D).
+  destruct (unarmed_start_refused _ _ _ Hs) as (A' & B' & _).
+  split.
+  - rewrite !slots_eq. destruct i; cbn [stream_of negb] in *; congruence.
+  - eapply start_failure_call; [exact H | reflexivity].
+Qed.
